@@ -4,7 +4,8 @@ VARIABLE l
 Trace == ndJsonDeserialize(IOEnv.VERIF_TRACE)
 FailSet(t) ==
    (IF C14_OK(t.cfg, t.input, t.obs) THEN {} ELSE {"C14"}) \cup
-   (IF C16_OK(t.cfg, t.input, t.obs) THEN {} ELSE {"C16"})
+   (IF C16_OK(t.cfg, t.input, t.obs) THEN {} ELSE {"C16"}) \cup
+   (IF C15_OK(t.cfg, t.input, t.obs) THEN {} ELSE {"C15"})
 Verdict(t) == [case |-> t.case, fails |-> FailSet(t), drift |-> ~Conforms(ModelOut(t.cfg, t.input), t.obs)]
 Init == l = 1
 Next == /\ l <= Len(Trace)
